@@ -48,7 +48,7 @@ ClientOk(e, x) ==
     THEN /\ e.req = Follow(P, x.t, e.base, "")
          /\ Len(e.chain) >= 1 => e.chain[1].line = Follow(P, x.t, e.base, e.q).line
          /\ Len(e.chain) >= 2 => e.chain[2].line = "gemini://" \o ServerName
-                                   \o RefPath(RefPath(e.base, x.t.href), Parse(Rq(e.chain[1].line, "", TRUE)).redirect) \o cCRLF
+                                   \o RefPath(RefPath(e.base, x.t.href), e.chain[1].loc) \o cCRLF       \* the redirect the server actually sent
          /\ Len(e.chain) <= 2
     ELSE e.req = Follow(P, x.t, e.base, e.q) /\ Len(e.chain) = 0
 
